@@ -123,6 +123,7 @@ pub fn e1_assumptions() -> Vec<String> {
 
 pub fn run(prop: &str, tier: Tier) -> i32 {
     let rep = Arc::new(Reporter::new(prop, tier));
+    model::spawn_watchdog(rep.clone(), std::time::Duration::from_secs(20));
     let dfs = false;
     let scns = match prop {
         "C01" => {
